@@ -7,10 +7,11 @@ namespace KafVerif.StorageLog
 
 /-! ### contiguous batch lists and segment chains -/
 
-/-- batches are consecutive from offset `a` to offset `e`, each covering ≥ 1 offset -/
+/-- batches are consecutive from offset `a` to offset `e`, each covering ≥ 1 offset and carrying a
+non-empty payload (all `AppendBatch` lets in: `1 ≤ n`, `8 ≤ len`) -/
 def Contig : List Batch → Nat → Nat → Prop
   | [], a, e => a = e
-  | b :: bs, a, e => b.base = a ∧ 1 ≤ b.n ∧ Contig bs (a + b.n) e
+  | b :: bs, a, e => b.base = a ∧ (1 ≤ b.n ∧ 1 ≤ b.len) ∧ Contig bs (a + b.n) e
 
 /-- segment ranges `(base, end)` are non-empty and consecutive from `a` to `e` -/
 def Chain : List (Nat × Nat) → Nat → Nat → Prop
@@ -61,6 +62,39 @@ theorem Contig_mem {xs : List Batch} {a e : Nat} (h : Contig xs a e) {b : Batch}
     rcases List.mem_cons.mp hb with rfl | hb
     · have := Contig_le h3; omega
     · have := ih h3 hb; omega
+
+/-- every member has a non-empty payload -/
+theorem Contig_len {xs : List Batch} {a e : Nat} (h : Contig xs a e) {b : Batch} (hb : b ∈ xs) : 1 ≤ b.len := by
+  induction xs generalizing a with
+  | nil => cases hb
+  | cons x xs ih =>
+    obtain ⟨_, h2, h3⟩ := h
+    rcases List.mem_cons.mp hb with rfl | hb
+    · exact h2.2
+    · exact ih h3 hb
+
+/-- **`BuildSegment` is total on what `AppendBatch` accepted** (the source's rule, `strict = false`):
+a non-empty list of batches with non-empty payloads is never rejected. -/
+theorem buildOk_of_lens {bs : List Batch} (hne : bs ≠ []) (hl : ∀ b ∈ bs, 1 ≤ b.len) : buildOk false bs = true := by
+  cases bs with
+  | nil => exact absurd rfl hne
+  | cons x xs =>
+    simp only [buildOk, List.isEmpty_cons, Bool.not_false, Bool.true_and, Bool.not_false, Bool.true_or, Bool.and_true,
+      List.all_eq_true, decide_eq_true_eq]
+    intro b hb; exact hl b hb
+
+theorem buildOk_of_contig {bs : List Batch} {a e : Nat} (hne : bs ≠ []) (h : Contig bs a e) : buildOk false bs = true :=
+  buildOk_of_lens hne (fun _ hb => Contig_len h hb)
+
+/-- the variants the ∀-theorems are about: the three repairs are in, and `BuildSegment` either keeps to
+the source's rule (then it cannot fail on accepted batches) or the error exit of `prepareFlush` re-queues -/
+structure Sound (v : Variant) : Prop where
+  requeue : v.requeue = true
+  atomicTarget : v.atomicTarget = true
+  monotone : v.monotone = true
+  build : v.strictBuild = false ∨ v.requeueBuild = true
+
+theorem sound_fixed : Sound fixed := ⟨rfl, rfl, rfl, Or.inl rfl⟩
 
 /-- every offset of the range is covered by a member -/
 theorem Contig_cover {xs : List Batch} {a e : Nat} (h : Contig xs a e) {o : Nat} (h1 : a ≤ o) (h2 : o < e) :
@@ -309,9 +343,16 @@ theorem Core_ack {segs idxs : S3} {kb hw : Nat} {acked : List Batch} {L : List (
 theorem inv_of {s' : State} {m' : Mem} (hm : s'.mem = some m') (h : MemInv s' m') : Inv s' := by
   simp only [Inv, hm]; exact h
 
-theorem inv_flushEnter {s : State} {m : Mem} {t : Nat} {b : Batch} (hm : s.mem = some m) (hi : MemInv s m)
+/-- a `BuildSegment` failure on batches `AppendBatch` accepted happens only in shapes that re-queue -/
+theorem requeue_of_buildFails {v : Variant} (hv : Sound v) {fault : Bool} {bs : List Batch} {a e : Nat}
+    (hne : bs ≠ []) (hc : Contig bs a e) (h : buildFails v fault bs = true) : v.requeueBuild = true := by
+  rcases hv.build with h1 | h1
+  · simp [buildFails, h1, buildOk_of_contig hne hc] at h; exact h.1
+  · exact h1
+
+theorem inv_flushEnter {v : Variant} (hv : Sound v) {s : State} {m : Mem} {t : Nat} {b : Batch} (hm : s.mem = some m) (hi : MemInv s m)
     (hlive : Live s.segs s.idxs m b) :
-    Inv (flushEnter fixed s m t b) := by
+    Inv (flushEnter v s m t b) := by
   unfold flushEnter
   by_cases hf : m.flushing = true
   · simp only [hf, if_true]
@@ -324,7 +365,7 @@ theorem inv_flushEnter {s : State} {m : Mem} {t : Nat} {b : Batch} (hm : s.mem =
     simp only [hf', Bool.false_eq_true, if_false, prepareFlush]
     cases hbuf : m.buffer with
     | nil =>
-      simp only [fixed, if_true, emptyTarget]
+      simp only [hv.atomicTarget, if_true, emptyTarget]
       have hE : segEnd m.segments = m.next := by
         have := hi.contig; rw [hinf, hbuf] at this; simpa [Contig] using this
       have hc : Comm s.segs s.idxs m.segments b := by
@@ -345,11 +386,25 @@ theorem inv_flushEnter {s : State} {m : Mem} {t : Nat} {b : Batch} (hm : s.mem =
                 pcs := pcs_set (fun t' _ => hi.pcs t') trivial,
                 uniq := uniq_set_nonup hi.uniq (by simp [isUp]) }
     | cons b0 bs =>
+      have hcb : Contig (b0 :: bs) (segEnd m.segments) m.next := by
+        have := hi.contig; rw [hinf, hbuf] at this; simpa using this
+      by_cases hbf : buildFails v s.fault (b0 :: bs) = true
+      · -- BuildSegment failed: only in a shape whose error exit re-queues; Flush returns the error
+        have hrq := requeue_of_buildFails hv (by simp) hcb hbf
+        simp only [hbf, if_true, hrq]
+        have hmm : ({ next := m.next, buffer := b0 :: bs, flushing := false, inflight := m.inflight, segments := m.segments } : Mem) = m := by
+          cases m; simp_all
+        rw [hmm]
+        refine inv_of (m' := m) (by simp) ?_
+        exact { core := hi.core, contig := hi.contig, infl := hi.infl, infl' := hi.infl',
+                pcs := pcs_set (fun t' _ => hi.pcs t') trivial,
+                uniq := uniq_set_nonup hi.uniq (by simp [isUp]) }
+      simp only [hbf]
       have hnone := no_up_of_not_flushing hi hf'
       let m' : Mem := { m with buffer := [], flushing := true, inflight := b0 :: bs }
       refine inv_of (m' := m') (by simp [m']) ?_
       have hcontig : Contig (m'.inflight ++ m'.buffer) (segEnd m'.segments) m'.next := by
-        have := hi.contig; rw [hinf, hbuf] at this; simpa [m'] using this
+        simpa [m'] using hcb
       have hL : ∀ b', Live s.segs s.idxs m b' → Live s.segs s.idxs m' b' := by
         intro b' hb'
         rcases hb' with h | h | h
@@ -370,7 +425,8 @@ theorem Core_hw {segs idxs : S3} {kb hw hw' : Nat} {acked : List Batch} {L : Lis
     (h : Core segs idxs kb hw acked L) (hh : hw' ≤ segEnd L) : Core segs idxs kb hw' acked L :=
   { h with hw := hh }
 
-theorem storePut_fixed (hw h : Nat) : storePut fixed hw h = max hw h := by simp [storePut, fixed]
+theorem storePut_sound {v : Variant} (hv : Sound v) (hw h : Nat) : storePut v hw h = max hw h := by simp [storePut, hv.monotone]
+theorem storePut_fixed (hw h : Nat) : storePut fixed hw h = max hw h := storePut_sound sound_fixed hw h
 
 /-- when the broker is down every thread is idle -/
 theorem pc_idle_of_down {s : State} (hi : Inv s) (hm : s.mem = none) (t : Nat) : s.pcs t = .idle := by
@@ -379,7 +435,7 @@ theorem pc_idle_of_down {s : State} (hi : Inv s) (hm : s.mem = none) (t : Nat) :
 theorem memInv_of {s : State} {m : Mem} (hi : Inv s) (hm : s.mem = some m) : MemInv s m := by
   simp only [Inv, hm] at hi; exact hi
 
-theorem inv_pub {s s' : State} {t : Nat} {ok : Bool} (hi : Inv s) (h : step fixed s (.pub t ok) = some s') : Inv s' := by
+theorem inv_pub {v : Variant} (hv : Sound v) {s s' : State} {t : Nat} {ok : Bool} (hi : Inv s) (h : step v s (.pub t ok) = some s') : Inv s' := by
   simp only [step] at h
   split at h
   case h_2 => simp at h
@@ -394,11 +450,11 @@ theorem inv_pub {s s' : State} {t : Nat} {ok : Bool} (hi : Inv s) (h : step fixe
       simp only [Option.some.injEq] at h
       subst h
       -- the store update
-      let s1 : State := if ok = true then { s with hw := storePut fixed s.hw hh } else s
+      let s1 : State := if ok = true then { s with hw := storePut v s.hw hh } else s
       have hs1 : MemInv s1 m := by
         by_cases hk : ok = true
         · simp only [s1, hk, if_true]
-          exact { core := Core_hw (hw' := storePut fixed s.hw hh) mi.core (by rw [storePut_fixed]; exact Nat.max_le.mpr ⟨mi.core.hw, hE⟩),
+          exact { core := Core_hw (hw' := storePut v s.hw hh) mi.core (by rw [storePut_sound hv]; exact Nat.max_le.mpr ⟨mi.core.hw, hE⟩),
                   contig := mi.contig, infl := mi.infl, infl' := mi.infl', pcs := mi.pcs, uniq := mi.uniq }
         · simp only [s1, hk]; exact mi
       have hm1 : s1.mem = some m := by
@@ -431,17 +487,25 @@ theorem MemInv_congr {s s' : State} {m : Mem} (h : MemInv s m) (h1 : s'.segs = s
   · intro t; rw [h1, h2, h6]; exact h.pcs t
   · intro t t'; rw [h6, h6]; exact h.uniq t t'
 
-theorem prepareFlush_cases (m : Mem) :
-    (prepareFlush m = (m, none) ∧ (m.flushing = true ∨ m.buffer = [])) ∨
-    (m.flushing = false ∧ ∃ b0 bs, m.buffer = b0 :: bs ∧
-      prepareFlush m = ({ m with buffer := [], flushing := true, inflight := b0 :: bs }, some (b0 :: bs))) := by
+theorem prepareFlush_cases (v : Variant) (fault : Bool) (m : Mem) :
+    (prepareFlush v fault m = (m, .none) ∧ (m.flushing = true ∨ m.buffer = [])) ∨
+    (m.flushing = false ∧ ∃ b0 bs, m.buffer = b0 :: bs ∧ buildFails v fault (b0 :: bs) = false ∧
+      prepareFlush v fault m = ({ m with buffer := [], flushing := true, inflight := b0 :: bs }, .art (b0 :: bs))) ∨
+    (m.flushing = false ∧ ∃ b0 bs, m.buffer = b0 :: bs ∧ buildFails v fault (b0 :: bs) = true ∧
+      prepareFlush v fault m = ({ m with buffer := if v.requeueBuild then b0 :: bs else [] }, .err)) := by
   unfold prepareFlush
   by_cases hf : m.flushing = true
   · simp [hf]
   · have hf' : m.flushing = false := by simpa using hf
     cases hb : m.buffer with
     | nil => simp [hf']
-    | cons b0 bs => simp [hf']
+    | cons b0 bs =>
+      by_cases hbf : buildFails v fault (b0 :: bs) = true
+      · simp only [hf', Bool.false_eq_true, if_false, hbf, if_true]
+        exact Or.inr (Or.inr ⟨trivial, b0, bs, rfl, hbf, rfl⟩)
+      · have hbf' : buildFails v fault (b0 :: bs) = false := by simpa using hbf
+        simp only [hf', Bool.false_eq_true, if_false, hbf']
+        exact Or.inr (Or.inl ⟨trivial, b0, bs, rfl, hbf', rfl⟩)
 
 /-- a thread that is not uploading starts a flush: the whole buffer becomes the in-flight artifact -/
 theorem memInv_drain {s s' : State} {m : Mem} {t : Nat} {b b0 : Batch} {bs : List Batch} {inA : Bool}
@@ -479,51 +543,67 @@ theorem memInv_drain {s s' : State} {m : Mem} {t : Nat} {b b0 : Batch} {bs : Lis
   · intro a c ha hc; rw [h6] at ha hc
     exact uniq_set_up (fun t' _ => hnone t') a c ha hc
 
-theorem inv_append {s s' : State} {t n : Nat} (hi : Inv s) (h : step fixed s (.append t n) = some s') : Inv s' := by
+theorem inv_append {v : Variant} (hv : Sound v) {s s' : State} {t n : Nat} {mc : Int} {len : Nat} (hi : Inv s)
+    (h : step v s (.append t n mc len) = some s') : Inv s' := by
   simp only [step] at h
   split at h
   case h_2 => simp at h
   case h_1 m hmem hpc =>
     have mi := memInv_of hi hmem
-    by_cases hn : 1 ≤ n
+    by_cases hn : 1 ≤ n ∧ 8 ≤ len
     case neg => simp [hn] at h
-    simp only [hn, if_true] at h
+    simp only [hn, and_self, if_true] at h
     -- the state after the append proper, before a possible drain
-    let b : Batch := { id := s.nextId, base := m.next, n := n }
+    let b : Batch := { id := s.nextId, base := m.next, n := n, mc := mc, len := len }
     let m1 : Mem := { m with next := m.next + n, buffer := m.buffer ++ [b] }
     let sm : State := { setPc { s with nextId := s.nextId + 1 } t (.appended b) with mem := some m1 }
+    have hc1 : Contig (m1.inflight ++ m1.buffer) (segEnd m1.segments) m1.next := by
+      have h0 := mi.contig
+      have : Contig [b] m.next (m.next + n) := by simp [Contig, b]; omega
+      have := Contig_append.mpr ⟨m.next, h0, this⟩
+      simpa [m1, List.append_assoc] using this
+    have hpcs1 : ∀ t', t' ≠ t → PcOk s.segs s.idxs m1 (s.pcs t') := fun t' _ =>
+      PcOk_mono_same (m := m) (m' := m1) rfl rfl rfl (fun b' hb' => by simp [m1, hb']) (mi.pcs t')
     have hmid : MemInv sm m1 := by
-      have hc : Contig (m1.inflight ++ m1.buffer) (segEnd m1.segments) m1.next := by
-        have h0 := mi.contig
-        have : Contig [b] m.next (m.next + n) := by simp [Contig, b]; omega
-        have := Contig_append.mpr ⟨m.next, h0, this⟩
-        simpa [m1, List.append_assoc] using this
-      refine { core := mi.core, contig := hc, infl := mi.infl, infl' := mi.infl', pcs := ?_, uniq := ?_ }
-      · refine pcs_set (fun t' _ => PcOk_mono_same (m := m) (m' := m1) rfl rfl rfl (fun b' hb' => by simp [m1, hb']) (mi.pcs t')) ?_
+      refine { core := mi.core, contig := hc1, infl := mi.infl, infl' := mi.infl', pcs := ?_, uniq := ?_ }
+      · refine pcs_set hpcs1 ?_
         exact Or.inr (Or.inl (by simp [m1]))
       · exact uniq_set_nonup mi.uniq (by simp [isUp])
     have hlive : Live sm.segs sm.idxs m1 b := Or.inr (Or.inl (by simp [m1]))
+    have hm1 : ({ next := m.next + n, buffer := m.buffer ++ [{ id := s.nextId, base := m.next, n := n, mc := mc, len := len }],
+                  flushing := m.flushing, inflight := m.inflight, segments := m.segments } : Mem) = m1 := rfl
     split at h
     · -- ShouldFlush
-      rcases prepareFlush_cases m1 with ⟨hp, _⟩ | ⟨hf, b0, bs, hbuf, hp⟩
-      · rw [show ({ next := m.next + n, buffer := m.buffer ++ [{ id := s.nextId, base := m.next, n := n }],
-                    flushing := m.flushing, inflight := m.inflight, segments := m.segments } : Mem) = m1 from rfl, hp] at h
+      rcases prepareFlush_cases v s.fault m1 with ⟨hp, _⟩ | ⟨hf, b0, bs, hbuf, _, hp⟩ | ⟨hf, b0, bs, hbuf, hbf, hp⟩
+      · rw [hm1, hp] at h
         simp only [Option.some.injEq] at h
         subst h
         exact inv_of (m' := m1) rfl hmid
-      · rw [show ({ next := m.next + n, buffer := m.buffer ++ [{ id := s.nextId, base := m.next, n := n }],
-                    flushing := m.flushing, inflight := m.inflight, segments := m.segments } : Mem) = m1 from rfl, hp] at h
+      · rw [hm1, hp] at h
         simp only [Option.some.injEq] at h
         subst h
         refine inv_of (m' := { m1 with buffer := [], flushing := true, inflight := b0 :: bs }) rfl ?_
         refine memInv_drain (s := sm) (t := t) (b := b) (inA := true) hmid hf hbuf hlive rfl rfl rfl rfl rfl ?_
         intro t'
         by_cases ht : t' = t <;> simp [sm, ht, b]
+      · -- BuildSegment failed inside AppendBatch: only in a shape that re-queues; AppendBatch returns the error
+        have hinf : m1.inflight = [] := mi.infl hf
+        have hcb : Contig (b0 :: bs) (segEnd m1.segments) m1.next := by
+          have := hc1; rw [hinf, hbuf] at this; simpa using this
+        have hrq := requeue_of_buildFails hv (by simp) hcb hbf
+        rw [hm1, hp] at h
+        simp only [Option.some.injEq, hrq, if_true] at h
+        subst h
+        have hmm : ({ m1 with buffer := b0 :: bs } : Mem) = m1 := by
+          rw [← hbuf]
+        rw [hmm]
+        refine inv_of (m' := m1) rfl ?_
+        refine { core := mi.core, contig := hc1, infl := mi.infl, infl' := mi.infl', pcs := ?_, uniq := ?_ }
+        · exact pcs_set hpcs1 trivial
+        · exact uniq_set_nonup mi.uniq (by simp [isUp])
     · simp only [Option.some.injEq] at h
       subst h
       exact inv_of (m' := m1) rfl hmid
-
-
 
 
 theorem flusher_facts {s : State} {m : Mem} {t : Nat} {inA : Bool} {b : Batch} {art : List Batch} {sg ix : Option Bool}
@@ -543,7 +623,7 @@ theorem flusher_facts {s : State} {m : Mem} {t : Nat} {inA : Bool} {b : Batch} {
   | false => rfl
   | true => exact absurd (mi.uniq t' t hu (by rw [hpc]; rfl)) ht'
 
-theorem inv_seg {s s' : State} {t : Nat} {ok : Bool} (hi : Inv s) (h : step fixed s (.seg t ok) = some s') : Inv s' := by
+theorem inv_seg {v : Variant} {s s' : State} {t : Nat} {ok : Bool} (hi : Inv s) (h : step v s (.seg t ok) = some s') : Inv s' := by
   simp only [step] at h
   split at h
   case h_2 => simp at h
@@ -611,7 +691,7 @@ theorem inv_seg {s s' : State} {t : Nat} {ok : Bool} (hi : Inv s) (h : step fixe
                       · exact Or.inr (hC b h)⟩,
                 uniq := uniq_set_up hnone }
 
-theorem inv_idx {s s' : State} {t : Nat} {ok : Bool} (hi : Inv s) (h : step fixed s (.idx t ok) = some s') : Inv s' := by
+theorem inv_idx {v : Variant} {s s' : State} {t : Nat} {ok : Bool} (hi : Inv s) (h : step v s (.idx t ok) = some s') : Inv s' := by
   simp only [step] at h
   split at h
   case h_2 => simp at h
@@ -672,7 +752,7 @@ theorem inv_idx {s s' : State} {t : Nat} {ok : Bool} (hi : Inv s) (h : step fixe
                       · exact Or.inr (hC b h)⟩,
                 uniq := uniq_set_up hnone }
 
-theorem inv_finish {s s' : State} {t : Nat} (hi : Inv s) (h : step fixed s (.finish t) = some s') : Inv s' := by
+theorem inv_finish {v : Variant} (hv : Sound v) {s s' : State} {t : Nat} (hi : Inv s) (h : step v s (.finish t) = some s') : Inv s' := by
   simp only [step] at h
   split at h
   case h_2 => simp at h
@@ -753,7 +833,7 @@ theorem inv_finish {s s' : State} {t : Nat} (hi : Inv s) (h : step fixed s (.fin
               pcs := pcs_set (fun t' ht' => PcOk_mono_nonup (m := m) (m' := m') (hnone t' ht') hL hC (by rw [hse]; omega) (mi.pcs t')) hpc',
               uniq := uniq_set_nonup mi.uniq (by simp [isUp]) }
     · -- upload failed: reset and re-queue
-      simp only [hboth, Bool.false_eq_true, if_false, Option.some.injEq, fixed, if_true] at h
+      simp only [hboth, Bool.false_eq_true, if_false, Option.some.injEq, hv.requeue, if_true] at h
       subst h
       let m' : Mem := { m with buffer := m.inflight ++ m.buffer, flushing := false, inflight := [] }
       refine inv_of (m' := m') (by simp [m']) ?_
@@ -932,7 +1012,7 @@ theorem core_after_restore {segs idxs : S3} {kb hw : Nat} {acked : List Batch} {
         exact ⟨p, List.mem_append_left _ hp, hpk⟩
       · exact ⟨(segEnd L, endOf o), by simp, by simp; omega⟩
 
-theorem inv_crash {s s' : State} (hi : Inv s) (h : step fixed s .crash = some s') : Inv s' := by
+theorem inv_crash {v : Variant} {s s' : State} (hi : Inv s) (h : step v s .crash = some s') : Inv s' := by
   simp only [step] at h
   split at h
   case h_2 => simp at h
@@ -945,7 +1025,7 @@ theorem inv_crash {s s' : State} (hi : Inv s) (h : step fixed s .crash = some s'
     exact ⟨⟨m.segments, mi.core⟩, fun _ => trivial⟩
 
 /-- the restore never fails on a reachable state, and re-establishes the invariant -/
-theorem inv_restore {s s' : State} (hi : Inv s) (h : step fixed s .restore = some s') :
+theorem inv_restore_of {v : Variant} (hv : Sound v) {s s' : State} (hi : Inv s) (h : step v s .restore = some s') :
     Inv s' ∧ s'.mem.isSome = true := by
   simp only [step] at h
   split at h
@@ -966,8 +1046,8 @@ theorem inv_restore {s s' : State} (hi : Inv s) (h : step fixed s .restore = som
       subst h
       refine ⟨inv_of (m' := { next := segEnd l, buffer := [], flushing := false, inflight := [], segments := l }) rfl ?_, rfl⟩
       refine { core := ?_, contig := by simp [Contig], infl := by simp, infl' := by simp, pcs := hidleOk _, uniq := huniq }
-      show Core s.segs s.idxs s.kb (storePut fixed s.hw (segEnd l)) s.acked l
-      rw [storePut_fixed]; exact hcore
+      show Core s.segs s.idxs s.kb (storePut v s.hw (segEnd l)) s.acked l
+      rw [storePut_sound hv]; exact hcore
     · simp only [hlt, if_false, Option.some.injEq] at h
       subst h
       have heq : s.hw = segEnd l := by omega
@@ -976,10 +1056,14 @@ theorem inv_restore {s s' : State} (hi : Inv s) (h : step fixed s .restore = som
       have : max s.hw (segEnd l) = s.hw := by omega
       rw [this] at hcore; exact hcore
 
-/-- **the invariant is inductive** -/
-theorem inv_step {s s' : State} {e : Ev} (hi : Inv s) (h : step fixed s e = some s') : Inv s' := by
+theorem inv_restore {s s' : State} (hi : Inv s) (h : step fixed s .restore = some s') :
+    Inv s' ∧ s'.mem.isSome = true := inv_restore_of sound_fixed hi h
+
+/-- **the invariant is inductive**, for every sound shape of the code: `BuildSegment` keeps to the source's
+rule, or may fail in any way (rule + fault oracle) and the error exit re-queues -/
+theorem inv_step_of {v : Variant} (hv : Sound v) {s s' : State} {e : Ev} (hi : Inv s) (h : step v s e = some s') : Inv s' := by
   cases e with
-  | append t n => exact inv_append hi h
+  | append t n mc len => exact inv_append hv hi h
   | flush t =>
     simp only [step] at h
     split at h
@@ -987,7 +1071,7 @@ theorem inv_step {s s' : State} {e : Ev} (hi : Inv s) (h : step fixed s e = some
     case h_1 m b hmem hpc =>
       have mi := memInv_of hi hmem
       simp only [Option.some.injEq] at h; subst h
-      exact inv_flushEnter hmem mi (by have := mi.pcs t; rw [hpc] at this; exact this)
+      exact inv_flushEnter hv hmem mi (by have := mi.pcs t; rw [hpc] at this; exact this)
   | wake t =>
     simp only [step] at h
     split at h
@@ -995,7 +1079,7 @@ theorem inv_step {s s' : State} {e : Ev} (hi : Inv s) (h : step fixed s e = some
     case h_1 m b hmem hpc =>
       have mi := memInv_of hi hmem
       simp only [Option.some.injEq] at h; subst h
-      exact inv_flushEnter hmem mi (by have := mi.pcs t; rw [hpc] at this; exact this)
+      exact inv_flushEnter hv hmem mi (by have := mi.pcs t; rw [hpc] at this; exact this)
   | readNext t =>
     simp only [step] at h
     split at h
@@ -1005,10 +1089,20 @@ theorem inv_step {s s' : State} {e : Ev} (hi : Inv s) (h : step fixed s e = some
       have := mi.pcs t; rw [hpc] at this; exact absurd this (by simp [PcOk])
   | seg t ok => exact inv_seg hi h
   | idx t ok => exact inv_idx hi h
-  | finish t => exact inv_finish hi h
-  | pub t ok => exact inv_pub hi h
+  | finish t => exact inv_finish hv hi h
+  | pub t ok => exact inv_pub hv hi h
   | crash => exact inv_crash hi h
-  | restore => exact (inv_restore hi h).1
+  | restore => exact (inv_restore_of hv hi h).1
+  | buildFault on =>
+    simp only [step, Option.some.injEq] at h
+    subst h
+    cases hm : s.mem with
+    | none => simp only [Inv, hm] at hi ⊢; exact hi
+    | some m =>
+      have mi := memInv_of hi hm
+      exact inv_of (m' := m) rfl (MemInv_congr mi rfl rfl rfl rfl rfl (fun _ => rfl))
+
+theorem inv_step {s s' : State} {e : Ev} (hi : Inv s) (h : step fixed s e = some s') : Inv s' := inv_step_of sound_fixed hi h
 
 theorem inv_init (cfg : Cfg) : Inv (init cfg) := by
   simp only [Inv, init]
@@ -1017,10 +1111,12 @@ theorem inv_init (cfg : Cfg) : Inv (init cfg) := by
           objs := fun _ h => (by cases h), below := fun _ h => (by simp at h), hw := Nat.zero_le _,
           acked := fun _ h => (by cases h) }
 
-theorem reachable_inv {cfg : Cfg} {s : State} (h : Reachable fixed cfg s) : Inv s := by
+theorem reachable_inv_of {v : Variant} (hv : Sound v) {cfg : Cfg} {s : State} (h : Reachable v cfg s) : Inv s := by
   induction h with
   | init => exact inv_init cfg
-  | step e _ hs ih => exact inv_step ih hs
+  | step e _ hs ih => exact inv_step_of hv ih hs
+
+theorem reachable_inv {cfg : Cfg} {s : State} (h : Reachable fixed cfg s) : Inv s := reachable_inv_of sound_fixed h
 
 
 
@@ -1065,14 +1161,14 @@ theorem Comm_end_le {segs idxs : S3} {kb hw : Nat} {acked : List Batch} {L : Lis
   have := Chain_mem hc.chain hp
   simp only [Batch.endOff]; omega
 
-theorem step_crash_eq {s c : State} (h : step fixed s .crash = some c) :
+theorem step_crash_eq {v : Variant} {s c : State} (h : step v s .crash = some c) :
     c.acked = s.acked ∧ c.hw = s.hw ∧ c.segs = s.segs ∧ c.idxs = s.idxs ∧ c.mem = none := by
   simp only [step] at h
   split at h
   · simp only [Option.some.injEq] at h; subst h; exact ⟨rfl, rfl, rfl, rfl, rfl⟩
   · simp at h
 
-theorem step_restore_eq {c r : State} (h : step fixed c .restore = some r) :
+theorem step_restore_eq {v : Variant} {c r : State} (h : step v c .restore = some r) :
     r.acked = c.acked ∧ r.segs = c.segs ∧ r.idxs = c.idxs := by
   simp only [step] at h
   split at h
